@@ -182,41 +182,26 @@ theorem standard_parameters :
     iterCount = 50000 ∧ encBlock = 16 ∧ encKeyBits = 128 ∧ encPrefix = 8 ∧ decOffset = encPrefix ∧
     decPrefix = encPrefix ∧ decBlock = encBlock ∧ packageOffset = 8 := by decide
 
-/-- *agile documents decrypt to valid packages* (segment loop) — partial: for a cipher text of
-`N = 4096·q + r` bytes with `1 ≤ r ≤ 4088` (every block-aligned length that is not a multiple of
-4096, any number of segments) `decryptPackage` takes exactly the chunks the format prescribes:
-`input[8:]` cut into consecutive 4096-byte segments, each byte visited exactly once, segment `i`
-decrypted with the IV built from index `i`; the empty package yields one empty chunk (no byte). The full
-statement (every `N`) is false: see `finding_agile_last_half_block_lost`. -/
-theorem agile_segments_partition_partial (q r : Nat) (hr1 : 1 ≤ r)
-    (hr2 : r ≤ packageEncryptionChunkSize - packageOffset) :
-    decryptPackageSegs (packageEncryptionChunkSize * q + r + packageOffset)
-      = .ok (specSegs (packageEncryptionChunkSize * q + r)) ∧
-    (decryptPackageSegs packageOffset = .ok [(0, packageOffset, packageOffset)] ∧ specSegs 0 = []) := by
+/-- *agile documents decrypt to valid packages* (segment loop, full strength): for **every**
+EncryptedPackage stream length `N + 8` — empty, shorter than a segment, any number of segments,
+cipher text a multiple of 4096 or not, block aligned or not — `decryptPackage` takes exactly the
+chunks the format prescribes: `input[8:]` cut into consecutive 4096-byte segments (the last holds
+the rest), every byte visited exactly once, segment `i` decrypted with the IV built from index `i`;
+no slice is ever inverted (the model has no panic outcome left). A stream shorter than the 8-byte
+size prefix is rejected. -/
+theorem agile_segments_partition (N : Nat) :
+    decryptPackageSegs (N + packageOffset) = .ok (specSegs N) ∧
+    (∀ L, L < packageOffset → decryptPackageSegs L = .err) := by
   constructor
   · unfold decryptPackageSegs
-    have hL : ¬ (packageEncryptionChunkSize * q + r + packageOffset < packageOffset) := by omega
-    rw [if_neg hL]
-    have h := agileLoop_good q r hr1 hr2 q 0 (packageEncryptionChunkSize * q + r + packageOffset + 1)
-      (by omega) (by simp only [packageEncryptionChunkSize] at *; omega)
+    rw [if_neg (by omega), Nat.add_sub_cancel]
+    have h := agileLoop_spec N ((N + (packageEncryptionChunkSize - 1)) / packageEncryptionChunkSize) 0 (N + 1)
+      (by omega) (by simp only [packageEncryptionChunkSize]; omega)
     simp only [Nat.mul_zero] at h
-    rw [h, specSegs_form q r hr1 (by simp only [packageEncryptionChunkSize, packageOffset] at *; omega)]
-  · decide
-
-/-- finding (open): when the cipher text is a multiple of 4096 bytes (a package whose length is
-0…15 bytes below a multiple of 4096) the loop compares `end + offset < len(input)` instead of `≤`:
-the last segment is cut 8 bytes short (its final AES block is lost and replaced by zero padding)
-and an extra empty chunk with the next IV index is processed. Witness: 4096 bytes of cipher text. -/
-theorem finding_agile_last_half_block_lost :
-    decryptPackageSegs (4096 + 8) = .ok [(0, 8, 4096), (1, 4104, 4104)] ∧
-    specSegs 4096 = [(0, 8, 4104)] ∧
-    decryptPackageSegs (4096 + 8) ≠ .ok (specSegs 4096) := by
-  decide +kernel
-
-/-- model fact (malformed input, not block aligned): a cipher text of 4090 bytes makes
-`input[start+offset : end]` an inverted slice — the runtime panic outcome of the model. -/
-theorem finding_agile_unaligned_panics : decryptPackageSegs (4090 + 8) = .panic := by
-  decide +kernel
+    rw [h, specSegs_eq]
+  · intro L hL
+    unfold decryptPackageSegs
+    rw [if_pos hL]
 
 /-- *every password the API accepts … any Unicode text*: the UTF-16LE conversion applied to the
 password before key derivation (BMP code units, surrogate pairs above U+FFFF) is injective on
